@@ -91,3 +91,31 @@ mod test {
         assert_eq!(cm.estimate(hash), 2);
     }
 }
+
+// ---------------------------------------------------------------------------------------------
+// verification hooks (feature `verif-hooks`)
+#[cfg(feature = "verif-hooks")]
+#[doc(hidden)]
+impl CountMinSketch {
+    pub(crate) fn verif_from_raw(rows: [alloc::vec::Vec<u8>; 4], mask: u64, _seeds: [u64; 4]) -> Self {
+        let [r0, r1, r2, r3] = rows;
+        Self {
+            rows: [
+                CountMinRow::verif_from_vec(r0),
+                CountMinRow::verif_from_vec(r1),
+                CountMinRow::verif_from_vec(r2),
+                CountMinRow::verif_from_vec(r3),
+            ],
+            mask,
+        }
+    }
+    pub(crate) fn verif_row(&self, i: usize) -> &[u8] {
+        self.rows[i].verif_bytes()
+    }
+    pub(crate) fn verif_mask(&self) -> u64 {
+        self.mask
+    }
+    pub(crate) fn verif_seeds(&self) -> [u64; 4] {
+        [0; 4]
+    }
+}
